@@ -226,6 +226,9 @@ func (c *Ctx) logoutMethodTable() {
 	}
 	seen := map[string]bool{}
 	for i, e := range phi.Edges {
+		if IsNilConst(e) {
+			continue // the rejected-method path carries no registration function
+		}
 		mc, isMC := e.(*ssa.MakeClosure)
 		method := ""
 		if isMC {
